@@ -197,10 +197,10 @@ class Enc:
                 if asv:
                     l = self.lab()
                     self.created.append((l, "A", asv))
-                    h = [0, 1, l, self.ent(asv)] + self.tryfin(lambda: self.block(hb),
+                    h = [1, l, self.ent(asv)] + self.tryfin(lambda: self.block(hb),
                                                               lambda: self.D(asv, True))
                 else:
-                    h = [0, 0, 0, 0] + self.block(hb)
+                    h = [0, 0, 0] + self.block(hb)
                 hs += h
             return ["T"] + b + el + [len(n[3])] + hs
         if k == "fin":
@@ -211,7 +211,7 @@ class Enc:
             def inner():
                 parts = ([self.A(n[2])] if n[2] else []) + [self.node(x) for x in n[3]]
                 body = self.seq(parts)
-                return ["T"] + body + ["0", "S", 1, 0, 0, 0, 0, "I", 0, "Z", "0", "S"]
+                return ["T"] + body + ["0", "S", 1, 0, 0, 0, "I", 0, "Z", "0", "S"]
             return ["Q"] + r + self.tryfin(inner, lambda: ["S"])
         if k == "break":
             return ["B"]
